@@ -183,4 +183,37 @@ theorem tie_cleanupAssigns : cleanupAssigns =
    "srv.mounts = dedup",
    "mnt.Replication = 1"] := rfl
 
+/-- block_state.go `increaseDesired` (Model `increaseDesired`, `raiseDesired`): references are
+tracked only while the block has no replica; no class listed = default; a class's desired level is
+only ever raised -/
+theorem tie_increaseConds : increaseConds =
+  ["if pdh != \"\" && len(bs.Replicas) == 0",
+   "if bs.Refs == nil",
+   "if len(classes) == 0",
+   "if bs.Desired == nil",
+   "if !ok || d < n"] := rfl
+
+theorem tie_increaseAssigns : increaseAssigns =
+  ["bs.Refs = map[string]bool{}",
+   "bs.Refs[pdh] = true",
+   "bs.RefCount++",
+   "classes = defaultClasses",
+   "bs.Desired = map[string]int{class: n}",
+   "d, ok := bs.Desired[class]",
+   "bs.Desired[class] = n"] := rfl
+
+/-- `addReplica` (Model `addReplica`): append, forget the references -/
+theorem tie_addReplicaAssigns : addReplicaAssigns =
+  ["bs.Replicas = append(bs.Replicas, r)", "bs.Refs = nil"] := rfl
+
+/-- ComputeChangeSets: lookup tables, then balanceBlock for every block of the map, then the
+statistics (the `cs` driver op runs exactly this) -/
+theorem tie_computeCalls : computeCalls =
+  ["bal.time(\"changeset_compute\", \"wall clock time to compute changesets\")",
+   "bal.time",
+   "bal.setupLookupTables",
+   "bal.BlockStateMap.Apply",
+   "bal.balanceBlock",
+   "bal.collectStatistics"] := rfl
+
 end ArvVerif.Tie.C05
